@@ -62,3 +62,33 @@ class _:
     }
     raises = {"TypeError": {"when": "isinstance(name, list) and exists(i, 0 <= i < len(as_ref(name, 'list:any')), not isstr(as_ref(name, 'list:any')[i]))"}}
     modifies = []
+
+
+@contract(NM + "parse_single_name_into_parts")
+class _:
+    """INTERFACE (assumed here; the algorithm is decided by the bounded layer p13 against a transcription of BibTeX's
+    name rules): returns a fresh NameParts and writes nothing that existed, or raises InvalidNameError"""
+    trusted = True
+    sorts = {"name": "any", "strict": "bool", "result": "ref:NameParts"}
+    ensures = {"fresh-result": "fresh(result)"}
+    raises = {"InvalidNameError": {"when": None}}
+    modifies = []
+
+
+@contract(NM + "SplitNameParts._transform_field_value")
+class _:
+    """a list of names is mapped, element by element and in order, through parse_single_name_into_parts (one fresh
+    NameParts per name, an invalid name propagates as InvalidNameError); a value that is not a list is the documented
+    misuse -> ValueError; the given list is not modified"""
+    sorts = {"self": "ref:SplitNameParts", "name": "any", "result": "list:ref:NameParts"}
+    comp_loops = {1: {"acc": "comp1", "elemkind": "ref:NameParts", "cursor": "_i", "invariant": {
+        "range": "0 <= _i <= len(as_ref(name, 'list:any')) and fresh(comp1) and len(comp1) == _i",
+        "elements": "forall(t, 0 <= t < len(comp1), fresh(comp1[t]) and allocated(comp1[t]))",
+        "input-untouched": "len(as_ref(name, 'list:any')) == old(len(as_ref(name, 'list:any')))",
+    }, "props": ("C13", "C14")}}
+    locals = {"comp1": "list:ref:NameParts"}
+    ensures = {
+        "C13+C14.one-per-name": "fresh(result) and len(result) == len(as_ref(name, 'list:any')) and forall(i, 0 <= i < len(result), fresh(result[i]))",
+    }
+    raises = {"ValueError": {"when": "not isinstance(name, list)"}, "InvalidNameError": {"when": None}}
+    modifies = []
